@@ -5,6 +5,7 @@ import Driver.Conc
 import Driver.Keys
 import Driver.Tcp
 import Driver.Usb
+import Driver.Spec
 /-
   Model driver: one request per line on stdin, one reply line per request on stdout.
   The Python harness sends the same operations to the real implementation and diffs.
@@ -106,6 +107,7 @@ def step (st : DState) (line : String) : DState × String :=
   match tokens line with
   | "codec" :: rest => (st, stepCodec rest)
   | "store" :: rest => stepStore st rest
+  | "spec" :: rest => (st, stepSpec rest)
   | "usb" :: rest => let (u', out) := stepUsb st.usb rest; ({ st with usb := u' }, out)
   | "tcp" :: rest => (st, stepTcp rest)
   | "keys" :: rest => (st, stepKeys rest)
